@@ -387,13 +387,22 @@ fn check_terms(f: &Facts, stats: &mut Stats) -> CheckResult {
     }
     // ---- the two terms may belong to different ontologies: the id-level queries are still the set
     // algebra of their two ancestor sets (second ontology: the same terms, every other link dropped)
-    let mut f2 = f.clone();
+    // (third ontology: the same terms with every link reversed, so that a term's ancestors here are its
+    // descendants there)
+    let mut dropped = f.clone();
     let mut k = 0;
-    f2.edges.retain(|_| {
+    dropped.edges.retain(|_| {
         k += 1;
         k % 2 == 0
     });
-    if f2.edges.len() != f.edges.len() {
+    let mut reversed = f.clone();
+    for e in reversed.edges.iter_mut() {
+        *e = (e.1, e.0);
+    }
+    for (f2, label) in [(dropped, "terms:pairs-across-two-ontologies"), (reversed, "terms:pairs-across-two-ontologies-with-reversed-hierarchy")] {
+        if f2.edges == f.edges {
+            continue;
+        }
         let ont2 = match via_builder(&f2, Finish::Minimal) {
             Ok(o) => o,
             Err(e) => return fail("construct/builder", e),
@@ -422,7 +431,7 @@ fn check_terms(f: &Facts, stats: &mut Stats) -> CheckResult {
                 }
             }
         }
-        stats.label("terms:pairs-across-two-ontologies");
+        stats.label(label);
     }
     if m.has_diamond() {
         stats.label("terms:diamond");
@@ -560,7 +569,7 @@ impl Property for C12 {
         "C12"
     }
     fn rule(&self) -> String {
-        "Generated: (a) operation sequences over one HpoGroup (insert with return value, contains, get, clear, full well-formedness snapshot) with ids from a 96-entry pool (dense block, neighbours, 0, 9_999_999, 10^7, u32::MAX), up to 120 ops, sizes crossing the inline limit 30; (b) pairs of id multisets in the classes overlap / disjoint / nested / equal / one empty / equal length / unbalanced (one operand more than 4x longer, not nested), built through 7 constructors (From<Vec<u32>>, From<Vec<HpoTermId>>, From<HashSet>, FromIterator<HpoTermId>, FromIterator<HpoTerm>, with_capacity+insert, reversed insert) and pushed through every ownership variant of |, &, + id, | id; (c) all ordered pairs of terms of generated DAGs through the 8 ancestor-query methods. Oracle: BTreeSet<u32>; every result must iterate strictly ascending, agree on len/is_empty/get/contains (also for neighbours of each element). evaluations = ops + operator results + ancestor queries. Non-trivial = an operand longer than 30, equal-length different operands, or a non-empty intersection smaller than both operands (pairs); op sequence reaching length > 30; DAG with a diamond. Distinct by hash of the case.".into()
+        "Generated: (a) operation sequences over one HpoGroup (insert with return value, contains, get, clear, full well-formedness snapshot) with ids from a 96-entry pool (dense block, neighbours, 0, 9_999_999, 10^7, u32::MAX), up to 120 ops, sizes crossing the inline limit 30; (b) pairs of id multisets in the classes overlap / disjoint / nested / equal / one empty / equal length / unbalanced (one operand more than 4x longer, not nested), built through 7 constructors (From<Vec<u32>>, From<Vec<HpoTermId>>, From<HashSet>, FromIterator<HpoTermId>, FromIterator<HpoTerm>, with_capacity+insert, reversed insert) and pushed through every ownership variant of |, &, + id, | id; (c) all ordered pairs of terms of generated DAGs through the 8 ancestor-query methods, and the id-level ones for pairs whose terms come from two ontologies over the same ids (every other link dropped; every link reversed). Oracle: BTreeSet<u32>; every result must iterate strictly ascending, agree on len/is_empty/get/contains (also for neighbours of each element). evaluations = ops + operator results + ancestor queries. Non-trivial = an operand longer than 30, equal-length different operands, or a non-empty intersection smaller than both operands (pairs); op sequence reaching length > 30; DAG with a diamond. Distinct by hash of the case.".into()
     }
     fn assumptions(&self) -> Vec<String> {
         vec![
@@ -574,7 +583,7 @@ impl Property for C12 {
         }
     }
     fn required_labels(&self, _tier: Tier) -> Vec<&'static str> {
-        vec!["nontrivial", "ops:len>30", "pair:operand>30", "pair:equal-length", "pair:unbalanced-not-nested", "pair:disjoint", "pair:nested", "pair:equal", "pair:empty-operand", "terms:diamond", "group>255-ids", "group>65535-ids", "pair:few-ids-vs-65+-partly-contained", "terms:pairs-across-two-ontologies"]
+        vec!["nontrivial", "ops:len>30", "pair:operand>30", "pair:equal-length", "pair:unbalanced-not-nested", "pair:disjoint", "pair:nested", "pair:equal", "pair:empty-operand", "terms:diamond", "group>255-ids", "group>65535-ids", "pair:few-ids-vs-65+-partly-contained", "terms:pairs-across-two-ontologies", "terms:pairs-across-two-ontologies-with-reversed-hierarchy"]
     }
     fn run_generated(&self, tier: Tier, seed: u64, n: u64, stats: &mut Stats) -> Option<(Value, Failure)> {
         run_typed(strategy(tier), seed, n, stats, check)
